@@ -109,7 +109,10 @@ class Run:
     def count(self, case, nontrivial: bool = True, n: int = 1) -> None:
         self.cov["evaluations"] += n
         if nontrivial:
-            k = sha(json.dumps(case, sort_keys=True, default=str, ensure_ascii=True))
+            try:
+                k = sha(json.dumps(case, sort_keys=True, default=str, ensure_ascii=True))
+            except TypeError:   # mixed int/str keys (documents with integer status keys)
+                k = sha(repr(case))
             if k not in self._distinct:
                 self._distinct.add(k)
                 self.cov["distinct_nontrivial"] += 1
